@@ -16,6 +16,6 @@ Theorem C16_caps_from_caller :
     Forall (fun f => f = a_ext a) (flat_map top_flags (o_items ot)) /\
     Forall (fun f => f = false) (flat_map nested_flags (tree_nodes ot)) /\
     flat_map all_flags (o_post ot ++ o_fin ot) = [] /\
-    Forall (tpl_is (a_tv a) (a_ap a)) (tree_tpl_caps ot).
+    Forall (tpl_is E (a_tv a) (a_ap a)) (tree_tpl_caps ot).
 Proof. exact caps_from_caller. Qed.
 Print Assumptions C16_caps_from_caller.
